@@ -436,7 +436,7 @@ func (sw *scanWriter) writeFilled(opts ScanWriterParams) {
 		if sw.output == outputIDs {
 			if opts.distOutput || opts.dist > 0 {
 				wr.WriteString(`{"id":` + jsonString(opts.obj.ID()) +
-					`,"distance":` + strconv.FormatFloat(opts.dist, 'f', -1, 64) + "}")
+					`,"distance":` + string(appendJSONFloat(nil, opts.dist)) + "}")
 			} else {
 				wr.WriteString(jsonString(opts.obj.ID()))
 			}
@@ -456,7 +456,7 @@ func (sw *scanWriter) writeFilled(opts ScanWriterParams) {
 			}
 			wr.WriteString(jsfields)
 			if opts.distOutput || opts.dist > 0 {
-				wr.WriteString(`,"distance":` + strconv.FormatFloat(opts.dist, 'f', -1, 64))
+				wr.WriteString(`,"distance":` + string(appendJSONFloat(nil, opts.dist)))
 			}
 
 			wr.WriteString(`}`)
